@@ -357,7 +357,7 @@ theorem visibility_hides_type_partial (p : VisP) (reg : List (String × Addr)) (
     (ht : h.readType a = some t) (hid : p.isTypeVisible t.name = false) : (onType (.vis p) reg h a).2 = none := by
   simp only [onType, ht]
   have hin : ∀ h' t', (inputRest (.vis p) reg a t.name h' t').2 = none := by
-    intro h' t'; simp [inputRest, hid]
+    intro h' t'; simp [inputRest, rebuiltOrSame, hid]
   cases hk : t.kind <;> simp [onComposite, onInputObject, onUnion, onLeaf, hid]
   split <;> exact hin _ _
 
